@@ -26,7 +26,7 @@ ASSUMPTIONS = [
 RULE = ('all lists of 0..N awaitables (N=4 quick, 5 thorough), each returning or raising one of '
         '{Base(Exception), Sub(Base), Other(Exception), BOnly(BaseException), CancelledError} after a delay; delays are '
         'a permutation-inducing assignment (every finishing permutation of every outcome list up to N=3, '
-        'random permutations beyond), given as coroutines, tasks or futures; `only` over the eight classes (a subclass of CancelledError included) and four tuples of classes (the empty tuple included), `aws` as a list or a one-shot generator; '
+        'random permutations beyond), given as coroutines, tasks or futures, each failing with an exception object of its own or several sharing one object; `only` over the eight classes (a subclass of CancelledError included) and four tuples of classes (the empty tuple included), `aws` as a list or a one-shot generator; '
         'run under a virtual clock; distinct = distinct (outcomes, delays, only, kinds) with >= 2 awaitables')
 
 
@@ -69,6 +69,9 @@ def run_impl(case, which):
     from aiuti.asyncio import gather_excs, raise_first_exc
     done = []
     specs = case['aws']
+    # `shared`: awaitables failing with the same class fail with the very same exception OBJECT (several of them wait
+    # for one shared future, or re-raise one pre-built error): still one failure per failing awaitable
+    shared = {} if case.get('shared') else None
 
     async def child(i, delay, cls):
         try:
@@ -82,6 +85,11 @@ def run_impl(case, which):
             e.idx = i
             return e
         if cls is not None:
+            if shared is not None:
+                if cls not in shared:
+                    shared[cls] = CLASSES[cls](i)
+                    shared[cls].idx = -1
+                raise shared[cls]
             e = CLASSES[cls](i)
             e.idx = i
             raise e
@@ -141,14 +149,15 @@ def spec(case):
             if c is not None and c < RETURNED and issubclass(CLASSES[c], only)]
 
 
-def norm(l):
+def norm(l, sh=False):
     """gather() reports a cancelled child with a CancelledError of its own making, so the instance does not carry the
-    index the harness attached: entries of that class are compared by class and position only."""
-    return [((-1 if c in (6, 7) else i), c) for i, c in l]
+    index the harness attached: entries of that class are compared by class and position only (as are all entries
+    when the failing awaitables share their exception objects)."""
+    return [((-1 if (sh or c in (6, 7)) else i), c) for i, c in l]
 
 
-def norm1(t):
-    return tuple(t[:1]) + tuple(norm([tuple(t[1:])])[0]) if t and t[0] == 'raised' else t
+def norm1(t, sh=False):
+    return tuple(t[:1]) + tuple(norm([tuple(t[1:])], sh)[0]) if t and t[0] == 'raised' else t
 
 
 def canon_done(case, done):
@@ -172,12 +181,15 @@ def gen_cases(ctx):
                         continue        # thin the largest size
                     kinds = [('coro', 'task', 'future')[(i + only) % 3] for i in range(n)]
                     yield {'aws': [(delays[i], outs[i], kinds[i]) for i in range(n)], 'only': only}
+                    raising = [o for o in outs if o is not None and o < RETURNED]
+                    if len(raising) != len(set(raising)) and (only + n) % 2 == 0:
+                        yield {'aws': [(delays[i], outs[i], kinds[i]) for i in range(n)], 'only': only, 'shared': True}
     rng = rng_for(ctx.seed, 'c20')
     for _ in range(3000 if ctx.quick else 60000):
         n = rng.randint(2, 5)
         aws = [(rng.choice([0, 1, 2, 3, 5, 8, 13]), rng.choice(outcomes + [None]),
                 rng.choice(['coro', 'task', 'future'])) for _ in range(n)]
-        yield {'aws': aws, 'only': rng.randrange(NCLS)}
+        yield {'aws': aws, 'only': rng.randrange(NCLS), 'shared': rng.random() < 0.3}
 
 
 def evaluate(ctx, cases, out):
@@ -186,6 +198,7 @@ def evaluate(ctx, cases, out):
         m_ys, m_first, m_done = parse_model(ans)
         exp = spec(case)
         n = len(case['aws'])
+        sh = bool(case.get('shared'))
         for which in ('gather', 'raise_first'):
             out.evaluations += 1
             mark(dict(case, which=which))
@@ -199,23 +212,23 @@ def evaluate(ctx, cases, out):
             if sorted(done) != list(range(n)):
                 msg = f'{which}: completion log {done}: not every awaitable ran to completion'
             elif which == 'gather':
-                if norm(res) != norm(exp):
+                if norm(res, sh) != norm(exp, sh):
                     msg = f'gather_excs yielded {res}, expected {exp}'
                 elif info and info[0] is not None and info[1] != n:
                     msg = f'gather_excs yielded after only {info[1]} of {n} awaitables had finished'
             else:
                 want = ('raised',) + exp[0] if exp else ('returned', None)
-                if norm1(res) != norm1(want):
+                if norm1(res, sh) != norm1(want, sh):
                     msg = f'raise_first_exc gave {res}, expected {want}'
             if msg:
                 out.concrete.append({'case': case, 'what': msg, 'observed': repr(res),
                                      'signature': {'kind': 'monitor', 'which': which}})
             out.traces_validated += 1
             if which == 'gather':
-                same = (norm(res) == norm(m_ys) and canon_done(case, done) == m_done)
+                same = (norm(res, sh) == norm(m_ys, sh) and canon_done(case, done) == m_done)
             else:
                 mres = ('raised',) + m_first if m_first else ('returned', None)
-                same = (norm1(res) == norm1(mres) and canon_done(case, done) == m_done)
+                same = (norm1(res, sh) == norm1(mres, sh) and canon_done(case, done) == m_done)
             if not same:
                 out.diffs.append({'case': case, 'impl': [repr(res), done], 'model': ans,
                                   'where': f'{which}: yielded list / completion log'})
@@ -268,6 +281,6 @@ def replay(ctx, payload):
     res2, done2, _ = run_impl(case, 'raise_first')
     ans = ctx.driver.ask([model_line(case)])[0]
     exp = spec(case)
-    fails = res != exp or sorted(done) != list(range(len(case['aws'])))
+    fails = norm(res, bool(case.get('shared'))) != norm(exp, bool(case.get('shared'))) or sorted(done) != list(range(len(case['aws'])))
     return {'case': case, 'gather_excs': res, 'done': done, 'raise_first_exc': res2, 'model': ans,
             'expected': exp, 'fails': fails}
